@@ -65,14 +65,30 @@ class C03(PropCheck):
             cs.append(("rf 1 1 new a rf24 0 ; a enter ; " + " ; ".join("a " + x for x in seq) + " ; a address 0 ; a get listen ; a get auto_ack",
                        f"pipe0-role-depth{k}"))
         res.exhaustive_blocks.append(f"all {len(core) ** k} sequences of {k} pipe-0 / role calls")
-        # non-plus chip whose variant IS detected (a second object finds FEATURE unlocked and non-zero): the only way
-        # into the non-plus branches (start_carrier_wave, pa_level / lna bit), K2 hides them from a first object
-        for _ in range(n // 3):
-            ops = ["new z rf24 0", "new a rf24 0", "a enter", "a get is_plus_variant"]
+        # non-plus chip: the non-plus branches (start_carrier_wave, pa_level / lna bit) are reached by a first object
+        # (fresh chip: FEATURE = 0, locked - the K2 state) and by an object constructed after another one (FEATURE unlocked,
+        # holding 5 after an RF24, 0 after a FakeBLE - the K1 state)
+        for i in range(n // 3):
+            ops = [[], ["new z rf24 0"], ["new z ble 0"]][i % 3] + ["new a rf24 0", "a enter", "a get is_plus_variant"]
             for _ in range(rng.randint(4, depth // 2)):
                 ops.append(rng.choice(["a start_carrier_wave", "a stop_carrier_wave", "a enter"]) if rng.random() < 0.25
                            else gen_rf.config_op(rng))
             cs.append(("rf 1 0 " + " ; ".join(ops), "nonplus-detected"))
+        # variant detection after every chain of up to three earlier constructors, on both variants (the prior chip
+        # states the library itself can produce: locked/0, unlocked/5, unlocked/0)
+        import itertools as _it
+        nchains = 0
+        for p in ("1", "0"):
+            for k in range(4):
+                for chain in _it.product(["rf24", "ble"], repeat=k):
+                    for last in ("rf24", "ble"):
+                        names = [f"z{i}" for i in range(k)]
+                        ops = [f"new {nm} {kd} 0" for nm, kd in zip(names, chain)] + [f"new a {last} 0", "a enter",
+                               "a get is_plus_variant", "a set dynamic_payloads [1,0,1]", "a set ack T", "a get dynamic_payloads",
+                               "a get ack", "a exit"]
+                        cs.append((f"rf 1 {p} " + " ; ".join(ops), "variant-after-constructor-chains"))
+                        nchains += 1
+        res.exhaustive_blocks.append(f"variant detection after all {nchains} chains of <= 3 earlier RF24 / FakeBLE constructors, plus and non-plus")
         # every method with optional parameters, called with them omitted (documented defaults)
         cs += [(gen_rf.defaults_session(rng), "documented-defaults") for _ in range(n // 2)]
         return cs
@@ -106,7 +122,6 @@ class C03(PropCheck):
             iops, mops = parse_out(io), parse_out(mo)
             plus = l.split()[2] == "1"
             suspended = False  # non-plus carrier-wave test documents altered settings until `with`
-            seen_k2 = False
             for k, (name, a) in enumerate(zip(opnames, iops)):
                 call = " ".join(name.split()[-len(name.split()) + (4 if k == 0 else 0):]) if k == 0 else name
                 if "start_carrier_wave" in name and not plus:
@@ -127,6 +142,10 @@ class C03(PropCheck):
                             break
                     if what is None and a["obj"].get("al") != str(int(r.get("aw", "0")) + 2):
                         what = f"cached address length {a['obj'].get('al')} vs SETUP_AW {r.get('aw')}"
+                if what is None and name.endswith(" get is_plus_variant") and a["res"] in ("T", "F") and a["res"] != ("T" if plus else "F"):
+                    # a directly computable fact: the session says which chip it is (every object, every chip history)
+                    what = (f"is_plus_variant returns {a['res']} on a{' plus' if plus else ' non-plus'} chip "
+                            f"(documented: True only for the nRF24L01+)")
                 sp = sgot.get(l)
                 if what is None and sp and sp != "bad-op" and k >= 2:
                     sops = parse_out(sp)
@@ -151,12 +170,6 @@ class C03(PropCheck):
                                 break
                 if what:
                     det = {"op_index": k, "op": call, "impl_op": a["raw"][:400]}
-                    if name.endswith("get is_plus_variant") and not plus:
-                        det["class"] = "nonplus-variant-misdetected"   # known finding K2 (same root cause as K1)
-                        if not seen_k2:
-                            out.append(Finding(l, f"op {k} `{call}`: {what}", det))
-                            seen_k2 = True
-                        continue    # keep judging the rest of the session
                     out.append(Finding(l, f"op {k} `{call}`: {what}", det))
                     break
         seen = {f.case for f in out}
